@@ -48,6 +48,7 @@ def literal_alternatives(sub):
 
 
 GROUP_LITERALS = {}
+GROUP_NESTING = {}      # pattern -> {gid/name: [(ancestor gid/name, minimum number of characters of the ancestor outside it)]}
 
 
 def group_info(pattern):
@@ -56,6 +57,8 @@ def group_info(pattern):
     names = {v: k for k, v in parsed.state.groupdict.items()}
     info = {}
     lits = GROUP_LITERALS.setdefault(pattern, {})
+    nest = GROUP_NESTING.setdefault(pattern, {})
+    stack = []
 
     def walk(items, optional):
         for op, av in items:
@@ -63,6 +66,28 @@ def group_info(pattern):
             if opn == 'SUBPATTERN':
                 gid, _, _, sub = av
                 if gid is not None:
+                    anc = []
+                    for agid, asub in stack:
+                        extra = max(0, asub.getwidth()[0] - sub.getwidth()[0])
+                        anc.append((agid, extra))
+                        if agid in names:
+                            anc.append((names[agid], extra))
+                    nest[gid] = anc
+                    if gid in names:
+                        nest[names[gid]] = anc
+                    stack.append((gid, sub))
+                    walk(sub, optional)
+                    stack.pop()
+                    info[gid] = optional
+                    alts = literal_alternatives(sub)
+                    if alts is not None:
+                        lits[gid] = alts
+                    if gid in names:
+                        info[names[gid]] = optional
+                        if alts is not None:
+                            lits[names[gid]] = alts
+                    continue
+                if False:
                     info[gid] = optional
                     alts = literal_alternatives(sub)
                     if alts is not None:
@@ -115,8 +140,13 @@ def regex_method(ip, rx, name, args, kwargs):
             raise_('TypeError', 'expected string or bytes-like object')
         # whether a pattern matches is a function of the subject (uninterpreted)
         fn = ufun(f'RE_{name.upper()}_{rid}', Str, Bool)
+        event = {'kind': 'regex', 'name': rid, 'method': name, 'subject': subj, 'matched': False, 'match': None}
+        ctx.ghost.setdefault('events', []).append(event)
         if ctx.branch(fn(str_term(ip, subj))):
-            return Obj('match', regex=rx, subject=subj, concrete=None, groups={})
+            m = Obj('match', regex=rx, subject=subj, concrete=None, groups={})
+            event['matched'] = True
+            event['match'] = m
+            return m
         return C(None)
     if name == 'sub':
         repl, subj = cargs[0], cargs[1]
@@ -181,6 +211,26 @@ def match_group(ip, m, idx):
     m.f['groups'][key] = val
     if alias is not None:
         m.f['groups'][alias] = val
+    fact_hook = ctx.cfg.hooks.get('match_group_fact')
+    if fact_hook is not None:
+        fact_hook(ip, m, key, val)
+    # nested groups: an inner group that participates is a substring of the outer one (derived from the pattern tree)
+    nest = GROUP_NESTING.get(m.f['regex'].f['pattern'], {})
+
+    def glen(v):
+        if isinstance(v, T):
+            return z3.Length(v.t), z3.BoolVal(True)
+        if isinstance(v, S):
+            return z3.Length(V.s(v.t)), is_str(v.t)
+        return None, None
+    for k2, v2 in list(m.f['groups'].items()):
+        for inner, outer in ((key, k2), (k2, key)):
+            for agid, extra in nest.get(inner, []):
+                if agid == outer:
+                    li, ci = glen(m.f['groups'][inner])
+                    lo, co = glen(m.f['groups'][outer])
+                    if li is not None and lo is not None:
+                        ctx.assume(z3.Implies(z3.And(ci, co), li + extra <= lo))
     return val
 
 
@@ -208,9 +258,16 @@ def match_method(ip, m, name, args, kwargs):
         return Obj('tuple', items=[I(a), I(b)])
     if name == 'start':
         subj = str_term(ip, m.f['subject'])
-        a = ctx.fresh('start', Int)
-        ctx.assume(z3.And(a >= 0, a <= z3.Length(subj)))
-        return I(a)
+        key = norm(ip, args[0]).py if args else 0
+        memo = m.f.setdefault('starts', {})
+        if key not in memo:
+            a = ctx.fresh(f'start_{key}', Int)
+            g = match_group(ip, m, C(key))
+            glen = z3.Length(g.t) if isinstance(g, T) else z3.If(is_str(g.t), z3.Length(V.s(g.t)), 0)
+            # a participating group lies inside the subject
+            ctx.assume(z3.And(a >= 0, a + glen <= z3.Length(subj)))
+            memo[key] = I(a)
+        return memo[key]
     raise OutOfReach(f'match method {name}')
 
 
